@@ -182,6 +182,7 @@ fn case(tier: Tier, rng: &mut Rng, rep: &mut Report) {
     spec.geom_points = rng.urange(2, 6);
     spec.geom_truncate = if rng.chance(0.3) { rng.urange(1, (net.ne() / 2).max(1)) } else { 0 };
     spec.gzip = rng.chance(0.2);
+    spec.geom_repeat = rng.chance(0.4);
     let app_route_fmt = rng.below(5);
     let app_tree_fmt = rng.below(6);
     let app_route_only_tree = app_tree_fmt < 5 && rng.chance(0.25);
@@ -452,7 +453,7 @@ pub fn run(tier: Tier, seed: u64) -> MonOut {
     crate::appgen::restore_stderr(saved);
     MonOut {
         report: rep,
-        rule: "generated networks with geometry tables of 2..6-point linestrings per edge (intermediate points unique to the edge), 30 % with the last rows missing, plain or gzip; real search results (Dijkstra / A* / single-via k 2..4, with and without destination) rendered by the real TraversalPlugin in all five formats for routes and trees, by SummaryOutputPlugin and UUIDOutputPlugin, and by CompassApp::run with a randomly configured format pair; WKT and WKB are decoded with the wkt / wkb crates. non-trivial = a route of >= 2 edges; distinct by (network, routes, geometry layout)".into(),
+        rule: "generated networks with geometry tables of 2..6-point linestrings per edge (intermediate points unique to the edge; in 40 % of the tables every third edge repeats one of its points), 30 % with the last rows missing, plain or gzip; real search results (Dijkstra / A* / single-via k 2..4, with and without destination) rendered by the real TraversalPlugin in all five formats for routes and trees, by SummaryOutputPlugin and UUIDOutputPlugin, and by CompassApp::run with a randomly configured format pair; WKT and WKB are decoded with the wkt / wkb crates. non-trivial = a route of >= 2 edges; distinct by (network, routes, geometry layout)".into(),
         assumptions: vec![
             "the reference for every format is the SearchAppResult handed to the plugin (edge sequence, serialized edge traversals) and the generator's geometry table".into(),
             "coordinates compare exactly for WKB (f32 widened to f64) and exactly after narrowing to f32 for WKT / GeoJSON text".into(),
